@@ -2,6 +2,7 @@ import Tickit.Proof.Sgr
 import Tickit.Proof.SgrFrame
 import Tickit.Proof.SgrSuspend
 import Tickit.Proof.SgrStrict
+import Tickit.Proof.SgrBuf
 import Tickit.Model.Modes
 import Tickit.Gen.TermBuf
 /-
@@ -650,5 +651,103 @@ theorem print_keeps_attrs (text : List Byte) (h : ∀ b ∈ text, b ≠ 27) (vt 
       simp [hb]
     have := ih (fun x hx => h x (by simp [hx]))
     simpa [run, hf] using this
+
+/-! ### the output buffer (`tickit_term_set_output_buffer`): the terminal reads the requests' bytes in the order emitted -/
+
+/-- The SGR string of every request of a history, one `write_str` each. -/
+def historyStrings (cfg : Cfg) : List Op → Pen → List (List Byte)
+  | [], _ => []
+  | op :: ops, cache =>
+    (match emit cfg cache op with
+      | .bytes bs => bs
+      | .overflow _ => []) :: historyStrings cfg ops (termCache op.isSet cfg.colors cache op.pen)
+
+theorem xtermChpen_byte_range (caps : Caps) (cap : Nat) (delta final : Pen) (bs : List Byte)
+    (h : xtermChpen caps cap delta final = .bytes bs) : ∀ b ∈ bs, b < 256 := by
+  have hr : ∀ ps, ∀ b ∈ renderSgr caps.colon ps, b < 256 := by
+    intro ps b hb
+    unfold renderSgr at hb
+    simp only [List.mem_append, List.mem_cons, List.mem_nil_iff, or_false] at hb
+    rcases hb with (h1 | h1) | h1
+    · rcases h1 with h1 | h1 <;> (rw [h1]; decide)
+    · have := Tickit.Proof.SgrStrict.renderBody_range caps.colon ps b h1
+      exact Nat.lt_of_le_of_lt this.2 (by decide)
+    · rw [h1]; decide
+  unfold xtermChpen at h
+  simp only at h
+  split at h
+  · cases h
+  · split at h
+    · cases h; intro b hb; cases hb
+    · split at h
+      · cases h; exact hr _
+      · cases h; exact hr _
+
+theorem historyStrings_byte_range (cfg : Cfg) (ops : List Op) (cache : Pen) :
+    ∀ b ∈ (historyStrings cfg ops cache).flatten, b < 256 := by
+  induction ops generalizing cache with
+  | nil => intro b hb; simp [historyStrings] at hb
+  | cons op ops ih =>
+    intro b hb
+    simp only [historyStrings, List.flatten_cons, List.mem_append] at hb
+    rcases hb with hb | hb
+    · cases he : emit cfg cache op with
+      | bytes bs =>
+        rw [he] at hb
+        exact xtermChpen_byte_range _ _ _ _ bs he b hb
+      | overflow n => rw [he] at hb; cases hb
+    · exact ih _ b hb
+
+theorem runOps_strings (cfg : Cfg) (ops : List Op) (st st' : TState) (h : runOps cfg ops st = some st') :
+    st'.vt = (historyStrings cfg ops st.cache).foldl (fun v bs => run bs v) st.vt := by
+  induction ops generalizing st with
+  | nil => simp [runOps] at h; subst h; rfl
+  | cons op ops ih =>
+    simp only [runOps] at h
+    cases hs : step cfg st op with
+    | none => rw [hs] at h; cases h
+    | some s1 =>
+      rw [hs] at h
+      have := ih s1 h
+      unfold step at hs
+      cases he : emit cfg st.cache op with
+      | overflow n => rw [he] at hs; cases hs
+      | bytes bs =>
+        rw [he] at hs
+        cases hs
+        simp only [historyStrings, he, List.foldl_cons]
+        exact this
+
+/-- **sgr_inv_buffered.** The invariant with an output buffer of ANY size `n` (0 = none) between the driver and the output
+    function: every request's SGR string goes through `write_str` of `src/term.c` (`Model/TermBuf.lean`), then
+    `tickit_term_flush`; the terminal reads what the output function received, in the order it received it.  The rendering
+    attributes in force are then exactly what the logical pen asks for — a request's bytes can neither overtake earlier ones
+    nor be lost, whatever their length relative to the buffer. -/
+theorem sgr_inv_buffered (cfg : Cfg) (ops : List Op) (st : TState) (n : Nat) (h8 : 8 ≤ cfg.colors)
+    (hok : ∀ op ∈ ops, PenOk cfg.caps op.pen) (h : runOps cfg ops {} = some st) :
+    let tb := Tickit.TermBuf.flush (Tickit.Proof.SgrBuf.writeAll (Tickit.TermBuf.setOutputBuffer Tickit.SgrBuf.init n)
+                (historyStrings cfg ops {}))
+    let vt := run (Tickit.SgrBuf.received tb) {}
+    tb.buf = [] ∧ vt.st = .ground ∧ vt.attrs = expected cfg (logical ops) := by
+  intro tb vt
+  have hv : vt = st.vt := by
+    show run (Tickit.SgrBuf.received tb) {} = st.vt
+    rw [runOps_strings cfg ops {} st h]
+    exact Tickit.Proof.SgrBuf.buffered_reads_in_order n _ (historyStrings_byte_range cfg ops {}) {}
+  have hi := sgr_inv cfg ops st h8 hok h
+  refine ⟨Tickit.TermBuf.flush_buf _, ?_, ?_⟩
+  · rw [hv]; exact hi.1
+  · rw [hv]; exact hi.2.2
+
+/-- non-vacuity, and what an out-of-order delivery does: with a 16-byte buffer `ESC[3m` (italic on) stays pending while the
+    23 bytes of `setpen {fg=123,bg=200}` follow; delivered in order the terminal ends with italic off … -/
+example : (run ([27, 91, 51, 109] ++ [27, 91, 51, 56, 59, 53, 59, 49, 50, 51, 59, 52, 56, 59, 53, 59, 50, 48, 48, 59, 50, 51, 109]) {}).attrs.italic = false := by
+  decide +kernel
+
+/-- … delivered with the long string first (a write that bypasses the buffer without flushing it) italic stays on although the
+    logical pen has none: the reference interpreter tells the two orders apart. -/
+theorem out_of_order_breaks :
+    (run ([27, 91, 51, 56, 59, 53, 59, 49, 50, 51, 59, 52, 56, 59, 53, 59, 50, 48, 48, 59, 50, 51, 109] ++ [27, 91, 51, 109]) {}).attrs.italic = true := by
+  decide +kernel
 
 end Tickit.Props.C10
